@@ -41,6 +41,7 @@ type storeEnv struct {
 	get   func(name string) (desync.Index, error)              // read path for what put stored
 	feeds []feed
 	hist  *histAccess // nil: the kind keeps no named objects (history_test.go)
+	http  *httpAccess // HTTP kind only (concurrent_test.go)
 	close func()
 }
 
@@ -141,6 +142,7 @@ func objectEnv(label string, s desync.IndexWriteStore, raw func(name string) ([]
 				b, err := raw(name)
 				return []image{{"the object kept by " + label, b}}, err
 			},
+			plant: plant,
 		},
 		feeds: []feed{{name: label + ".GetIndex", read: func(b []byte) error {
 			if err := plant("m.caibx", b); err != nil {
@@ -356,7 +358,9 @@ func openHTTP(scratch func() string) (*storeEnv, error) {
 				}
 				return append(imgs, image{"the GET response body of HTTPIndexHandler", body}), nil
 			},
+			plant: func(name string, b []byte) error { return os.WriteFile(filepath.Join(dir, name), b, 0o644) },
 		},
+		http: &httpAccess{handler: handler, url: srv.URL},
 		feeds: []feed{
 			{name: "RemoteHTTPIndex.GetIndex <- HTTPIndexHandler <- file", read: func(b []byte) error {
 				if err := os.WriteFile(filepath.Join(dir, "m.caibx"), b, 0o644); err != nil {
